@@ -88,10 +88,140 @@ func orderOf(fset *token.FileSet, fn *ast.FuncDecl, snippets []string) []int {
 	return pos
 }
 
-// nodeWrites lists every assignment whose left side goes through a field of a node object
-// (Key / Value / Link / dirty / shared / source / expected), per function.
-func nodeWrites(fset *token.FileSet, files []string) []string {
+// ---- provenance of node variables ------------------------------------------------------------
+//
+// The inventories below are keyed by WHAT is written, not by how the source spells it: a write or
+// an append goes through a variable that, at that point of the function, either holds a node the
+// function has just made (a composite literal, emptyNode / emptyNodePointer, xcopy, ToMut,
+// extract: "fresh") or anything else (a parameter, a loaded or cached node, a path entry:
+// "other").  Renaming locals, reordering independent statements or extracting expressions does
+// not change an entry; a new place where a node that was not made here is written, or where a
+// slice of such a node is appended onto or kept, does.
+
+var freshCalls = map[string]bool{"emptyNodePointer": true, "emptyNode": true, "xcopy": true, "ToMut": true, "extract": true, "new": true}
+
+func isFreshExpr(e ast.Expr) bool {
+	switch x := e.(type) {
+	case *ast.ParenExpr:
+		return isFreshExpr(x.X)
+	case *ast.UnaryExpr:
+		return isFreshExpr(x.X)
+	case *ast.CompositeLit:
+		return true
+	case *ast.CallExpr:
+		switch f := x.Fun.(type) {
+		case *ast.Ident:
+			return freshCalls[f.Name]
+		case *ast.SelectorExpr:
+			return freshCalls[f.Sel.Name]
+		}
+	}
+	return false
+}
+
+// assignmentsOf: for every identifier, the source positions at which it is (re)assigned in the
+// function, each with whether the assigned expression is fresh.
+type assignAt struct {
+	pos   token.Pos
+	fresh bool
+}
+
+func assignmentsOf(fd *ast.FuncDecl) map[string][]assignAt {
+	out := map[string][]assignAt{}
+	add := func(lhs ast.Expr, rhs ast.Expr, pos token.Pos) {
+		id, ok := lhs.(*ast.Ident)
+		if !ok {
+			return
+		}
+		out[id.Name] = append(out[id.Name], assignAt{pos, rhs != nil && isFreshExpr(rhs)})
+	}
+	ast.Inspect(fd.Body, func(n ast.Node) bool {
+		switch st := n.(type) {
+		case *ast.AssignStmt:
+			if len(st.Rhs) == len(st.Lhs) {
+				for i := range st.Lhs {
+					add(st.Lhs[i], st.Rhs[i], st.Pos())
+				}
+			} else if len(st.Rhs) == 1 { // x, err := f(): the first result carries the node
+				for i, l := range st.Lhs {
+					if i == 0 {
+						add(l, st.Rhs[0], st.Pos())
+					} else {
+						add(l, nil, st.Pos())
+					}
+				}
+			}
+		case *ast.ValueSpec:
+			for i, nm := range st.Names {
+				var rhs ast.Expr
+				if i < len(st.Values) {
+					rhs = st.Values[i]
+				}
+				add(nm, rhs, st.Pos())
+			}
+		case *ast.RangeStmt:
+			if st.Key != nil {
+				add(st.Key, nil, st.Pos())
+			}
+			if st.Value != nil {
+				add(st.Value, nil, st.Pos())
+			}
+		}
+		return true
+	})
+	return out
+}
+
+// provenance of the node expression `base` used at position `at`
+func provenance(asg map[string][]assignAt, base ast.Expr, at token.Pos) string {
+	for {
+		if p, ok := base.(*ast.ParenExpr); ok {
+			base = p.X
+			continue
+		}
+		if p, ok := base.(*ast.StarExpr); ok {
+			base = p.X
+			continue
+		}
+		break
+	}
+	id, ok := base.(*ast.Ident)
+	if !ok {
+		return "other"
+	}
+	best := assignAt{pos: token.NoPos}
+	for _, a := range asg[id.Name] {
+		if a.pos <= at && a.pos >= best.pos {
+			best = a
+		}
+	}
+	if best.pos != token.NoPos && best.fresh {
+		return "fresh"
+	}
+	return "other"
+}
+
+func funcName(fset *token.FileSet, fd *ast.FuncDecl) string {
+	fname := fd.Name.Name
+	if fd.Recv != nil && len(fd.Recv.List) > 0 {
+		fname = exprString(fset, fd.Recv.List[0].Type) + "." + fname
+	}
+	return fname
+}
+
+func sortedSet(m map[string]bool) []string {
 	var out []string
+	for k := range m {
+		out = append(out, k)
+	}
+	sort.Strings(out)
+	return out
+}
+
+// nodeWrites: the set of (function, provenance of the node, field, element-or-whole) of every
+// assignment whose left side goes through a field of a node object.
+func nodeWrites(fset *token.FileSet, files []string) []string {
+	set := map[string]bool{}
 	fields := map[string]bool{"Key": true, "Value": true, "Link": true, "dirty": true, "shared": true, "source": true, "expected": true}
 	for _, rel := range files {
 		f := parseFile(fset, rel)
@@ -100,32 +230,49 @@ func nodeWrites(fset *token.FileSet, files []string) []string {
 			if !ok || fd.Body == nil {
 				continue
 			}
-			fname := fd.Name.Name
-			if fd.Recv != nil && len(fd.Recv.List) > 0 {
-				fname = exprString(fset, fd.Recv.List[0].Type) + "." + fname
+			asg := assignmentsOf(fd)
+			record := func(lhs ast.Expr, at token.Pos) {
+				e, elem := lhs, ""
+				if ix, ok := e.(*ast.IndexExpr); ok {
+					e, elem = ix.X, "[]"
+				}
+				sel, ok := e.(*ast.SelectorExpr)
+				if !ok || !fields[sel.Sel.Name] {
+					return
+				}
+				if pv := provenance(asg, sel.X, at); pv == "other" { // writes to a node made here need no review
+					set[fmt.Sprintf("%s: %s.%s%s", rel, pv, sel.Sel.Name, elem)] = true
+				}
 			}
 			ast.Inspect(fd.Body, func(n ast.Node) bool {
-				as, ok := n.(*ast.AssignStmt)
-				if !ok {
-					return true
-				}
-				for _, lhs := range as.Lhs {
-					e := lhs
-					if ix, ok := e.(*ast.IndexExpr); ok {
-						e = ix.X
+				switch st := n.(type) {
+				case *ast.AssignStmt:
+					for _, lhs := range st.Lhs {
+						record(lhs, st.Pos())
 					}
-					sel, ok := e.(*ast.SelectorExpr)
-					if !ok || !fields[sel.Sel.Name] {
-						continue
+				case *ast.IncDecStmt:
+					record(st.X, st.Pos())
+				case *ast.CallExpr:
+					// copy(dst, src) writes the elements of dst
+					if id, ok := st.Fun.(*ast.Ident); ok && id.Name == "copy" && len(st.Args) == 2 {
+						dst := st.Args[0]
+						for {
+							if sl, ok := dst.(*ast.SliceExpr); ok {
+								dst = sl.X
+								continue
+							}
+							break
+						}
+						if sel, ok := dst.(*ast.SelectorExpr); ok && fields[sel.Sel.Name] && provenance(asg, sel.X, st.Pos()) == "other" {
+							set[fmt.Sprintf("%s: other.%s[]", rel, sel.Sel.Name)] = true
+						}
 					}
-					out = append(out, fmt.Sprintf("%s:%s: %s", rel, fname, exprString(fset, lhs)))
 				}
 				return true
 			})
 		}
 	}
-	sort.Strings(out)
-	return out
+	return sortedSet(set)
 }
 
 // stateEvents lists, in source order, the assignments to fields of the tree (`m.root`, `m.size`,
@@ -204,14 +351,15 @@ func writesBeforeFallible(events []string, allowed map[string]bool) []string {
 	return bad
 }
 
-// nodeSliceShares lists every expression that can make a new slice share the backing array of a
-// node's Key / Value / Link slice: `append(x.Field..., ...)` with a node slice as first argument,
-// and re-slicings `x.Field[a:b]`, per function.  (Copy-on-write needs fresh slices; a new entry in
-// this inventory is a place where two nodes may come to share memory.)
+// nodeSliceShares: the set of places where a slice of a node the function did not make can come
+// to be shared or overwritten: `append(other.Field…, …)` (appends onto that node's backing array)
+// and re-slicings `other.Field[a:b]` that are kept (anything but a spread argument of append, or
+// an operand of copy / len / cap / range, which only read the elements).
 func nodeSliceShares(fset *token.FileSet, files []string) []string {
-	var out []string
+	set := map[string]bool{}
 	fields := map[string]bool{"Key": true, "Value": true, "Link": true}
-	isNodeSlice := func(e ast.Expr) bool {
+	// the node-slice selector under re-slicings, or nil
+	nodeSlice := func(e ast.Expr) *ast.SelectorExpr {
 		for {
 			switch x := e.(type) {
 			case *ast.SliceExpr:
@@ -221,39 +369,166 @@ func nodeSliceShares(fset *token.FileSet, files []string) []string {
 				e = x.X
 				continue
 			case *ast.SelectorExpr:
-				return fields[x.Sel.Name]
+				if fields[x.Sel.Name] {
+					return x
+				}
 			}
-			return false
+			return nil
 		}
 	}
+	// functions of the package by name, for the one-level look into helpers
+	decls := map[string]*ast.FuncDecl{}
+	var parsed []*ast.File
 	for _, rel := range files {
 		f := parseFile(fset, rel)
+		parsed = append(parsed, f)
+		for _, d := range f.Decls {
+			if fd, ok := d.(*ast.FuncDecl); ok && fd.Body != nil {
+				decls[fd.Name.Name] = fd
+			}
+		}
+	}
+	for fi, rel := range files {
+		f := parsed[fi]
 		for _, d := range f.Decls {
 			fd, ok := d.(*ast.FuncDecl)
 			if !ok || fd.Body == nil {
 				continue
 			}
-			fname := fd.Name.Name
-			if fd.Recv != nil && len(fd.Recv.List) > 0 {
-				fname = exprString(fset, fd.Recv.List[0].Type) + "." + fname
-			}
+			asg := assignmentsOf(fd)
+			fname := funcName(fset, fd)
+			readOnly := map[ast.Expr]bool{} // slice expressions whose elements are only read
 			ast.Inspect(fd.Body, func(n ast.Node) bool {
 				switch x := n.(type) {
 				case *ast.CallExpr:
-					if id, ok := x.Fun.(*ast.Ident); ok && id.Name == "append" && len(x.Args) > 0 && isNodeSlice(x.Args[0]) {
-						out = append(out, fmt.Sprintf("%s:%s: %s", rel, fname, exprString(fset, x)))
+					var callee string
+					switch fx := x.Fun.(type) {
+					case *ast.Ident:
+						callee = fx.Name
+					case *ast.SelectorExpr:
+						callee = fx.Sel.Name
 					}
+					if hd, ok := decls[callee]; ok && callee != "append" && callee != "copy" {
+						// a helper of this package that only reads the elements of its i-th parameter
+						for i, a := range x.Args {
+							if paramReadOnly(hd, i) {
+								readOnly[a] = true
+							}
+						}
+						return true
+					}
+					id, ok := x.Fun.(*ast.Ident)
+					if !ok {
+						return true
+					}
+					switch id.Name {
+					case "append":
+						for i, a := range x.Args {
+							if i > 0 {
+								readOnly[a] = true
+							}
+						}
+						if len(x.Args) > 0 {
+							if sel := nodeSlice(x.Args[0]); sel != nil && provenance(asg, sel.X, x.Pos()) == "other" {
+								set[fmt.Sprintf("%s:%s: append onto other.%s", rel, fname, sel.Sel.Name)] = true
+							}
+							readOnly[x.Args[0]] = true // counted as an append, not again as a re-slicing
+						}
+					case "copy":
+						if len(x.Args) == 2 {
+							readOnly[x.Args[1]] = true
+							readOnly[x.Args[0]] = true // element writes are in node_writes
+						}
+					case "len", "cap":
+						for _, a := range x.Args {
+							readOnly[a] = true
+						}
+					}
+				case *ast.RangeStmt:
+					readOnly[x.X] = true
 				case *ast.SliceExpr:
-					if isNodeSlice(x.X) {
-						out = append(out, fmt.Sprintf("%s:%s: %s", rel, fname, exprString(fset, x)))
+					if readOnly[x] {
+						return true
 					}
+					if sel := nodeSlice(x); sel != nil && provenance(asg, sel.X, x.Pos()) == "other" {
+						set[fmt.Sprintf("%s:%s: keeps a re-slicing of other.%s", rel, fname, sel.Sel.Name)] = true
+					}
+					return false // inner re-slicings belong to the same expression
 				}
 				return true
 			})
 		}
 	}
-	sort.Strings(out)
-	return out
+	return sortedSet(set)
+}
+
+// paramReadOnly: every use of the i-th parameter of fd only reads its elements (a spread or
+// plain argument of append after the first, the source of copy, len / cap, range, an index read).
+func paramReadOnly(fd *ast.FuncDecl, i int) bool {
+	var names []string
+	for _, fl := range fd.Type.Params.List {
+		for _, n := range fl.Names {
+			names = append(names, n.Name)
+		}
+	}
+	if i >= len(names) {
+		return false
+	}
+	name := names[i]
+	ok := map[*ast.Ident]bool{}
+	mark := func(e ast.Expr) {
+		if id, isId := e.(*ast.Ident); isId && id.Name == name {
+			ok[id] = true
+		}
+	}
+	ast.Inspect(fd.Body, func(n ast.Node) bool {
+		switch x := n.(type) {
+		case *ast.CallExpr:
+			if id, isId := x.Fun.(*ast.Ident); isId {
+				switch id.Name {
+				case "append":
+					for j, a := range x.Args {
+						if j > 0 {
+							mark(a)
+						}
+					}
+				case "copy":
+					if len(x.Args) == 2 {
+						mark(x.Args[1])
+					}
+				case "len", "cap":
+					for _, a := range x.Args {
+						mark(a)
+					}
+				}
+			}
+		case *ast.RangeStmt:
+			mark(x.X)
+		case *ast.IndexExpr:
+			mark(x.X)
+		}
+		return true
+	})
+	good := true
+	ast.Inspect(fd.Body, func(n ast.Node) bool {
+		switch x := n.(type) {
+		case *ast.AssignStmt:
+			// an element write p[i] = v is not a read
+			for _, l := range x.Lhs {
+				if ix, isIx := l.(*ast.IndexExpr); isIx {
+					if id, isId := ix.X.(*ast.Ident); isId && id.Name == name {
+						good = false
+					}
+				}
+			}
+		case *ast.Ident:
+			if x.Name == name && !ok[x] {
+				good = false
+			}
+		}
+		return true
+	})
+	return good
 }
 
 func collectFacts(group string) map[string]interface{} {
@@ -409,6 +684,28 @@ func runFacts(group string, update bool) int {
 	for k := range keys {
 		a, _ := json.Marshal(want[k])
 		b, _ := json.Marshal(gotN[k])
+		if group == "writes" {
+			// an inventory of places to review: only a NEW entry matters
+			known := map[string]bool{}
+			if l, ok := want[k].([]interface{}); ok {
+				for _, x := range l {
+					known[fmt.Sprint(x)] = true
+				}
+			}
+			var added []string
+			if l, ok := gotN[k].([]interface{}); ok {
+				for _, x := range l {
+					if !known[fmt.Sprint(x)] {
+						added = append(added, fmt.Sprint(x))
+					}
+				}
+			}
+			if len(added) > 0 {
+				bad++
+				fmt.Printf("FACT CHANGED %s.%s: new entries %q\n", group, k, added)
+			}
+			continue
+		}
 		if string(a) != string(b) {
 			bad++
 			fmt.Printf("FACT CHANGED %s.%s:\n  expected %s\n  found    %s\n", group, k, a, b)
